@@ -309,6 +309,7 @@ def _exec_hist_calc(net, op, i, ctx, h):
             h.conv_age = 0
             h.nearby = True
             h.prev_valid = kw.get("init", "auto") in ("auto", "dc") and "init_vm_pu" not in kw and \
+                "init_va_degree" not in kw and \
                 kw.get("algorithm", "nr") in ("nr", "iwamoto_nr") and kw.get("calculate_voltage_angles", True) and \
                 _normal_operating_point(net)
             h.prev_had_nan = bool(len(net.res_bus) and net.res_bus.vm_pu.isna().any())
@@ -443,6 +444,7 @@ def _exec_probe(net, op, i, ctx, h):
             # validated: equal to the default-start reference; or itself a default-start NR run
             h.prev_valid = ((init_results and conclusive and sig is None and e_ref is None) or
                             (not init_results and kw.get("init", "auto") in ("auto", "dc")
+                             and "init_vm_pu" not in kw and "init_va_degree" not in kw
                              and kw.get("algorithm", "nr") in ("nr", "iwamoto_nr"))) and _normal_operating_point(net)
         else:
             h.conv_age = None
